@@ -33,6 +33,12 @@ func (f *Expand) Apply(inputs []tensor.Tensor) ([]tensor.Tensor, error) {
 		return nil, err
 	}
 
+	// Expand broadcasts both ways: a target shape with fewer dimensions than the
+	// input tensor is padded with ones at the front.
+	for len(shape) < len(input.Shape()) {
+		shape = append([]int{1}, shape...)
+	}
+
 	// If the new shape has more dimensions than the input tensor, we
 	// need to prepend some dimensions to the input tensor shape.
 	if len(shape) > len(input.Shape()) {
@@ -44,6 +50,14 @@ func (f *Expand) Apply(inputs []tensor.Tensor) ([]tensor.Tensor, error) {
 
 	for axis := len(shape) - 1; axis >= 0; axis-- {
 		if input.Shape()[axis] != shape[axis] {
+			if shape[axis] == 1 {
+				continue
+			}
+
+			if input.Shape()[axis] != 1 {
+				return nil, ops.ErrIncompatibleDimensions()
+			}
+
 			input, err = tensor.Repeat(input, axis, shape[axis])
 			if err != nil {
 				return nil, err
